@@ -20,7 +20,7 @@ func c19Tier(tier string) (maxLen, exh, long, nested int) {
 	if tier == "thorough" {
 		return 12, ((1 << 13) - 1) * 3 * 4, 200000, 200000
 	}
-	return 10, ((1 << 11) - 1) * 3 * 4, 3000, 3000
+	return 10, ((1 << 11) - 1) * 3 * 4, 30000, 30000
 }
 
 // pattern string: 'x' element, '.' nil
